@@ -1,6 +1,7 @@
 package main
 
 import (
+	"go/types"
 	"fmt"
 	"go/token"
 	"sort"
@@ -287,5 +288,81 @@ func c09ModKeyComponents(p *Prog) *RuleResult {
 	} else {
 		r.OK("ModKey compared as a whole", true, fmt.Sprintf("%d whole-struct comparisons, no field-wise comparison", cmp))
 	}
+	return r
+}
+
+// C09/R9 (also registered as C14/R7) a cache hit replays the diagnostics of the cached parse.
+//
+// The incremental AST caches store, next to each parsed file, the messages its parse produced and
+// replay them into the log on every cache hit. Errors that do not stop the parser — "top-level
+// await is not available in the configured target", "transforming destructuring to the configured
+// target is not supported yet" and every other markSyntaxFeature diagnostic — exist only as such a
+// message: the returned AST still contains the construct and `ok` is true. A hit that does not
+// replay them turns a build that must fail into a successful one that emits the unsupported
+// syntax, on the second and every later build of a context.
+// Rule: in every Parse method of internal/cache, each path from the entry to a return of cached
+// entry fields passes a read of the entry's stored messages (the replay loop).
+func c09CacheHitReplay(p *Prog, name string) *RuleResult {
+	r := NewRule(name, "a hit of an incremental AST cache replays the stored diagnostics of the cached parse unconditionally (non-fatal errors such as unsupported-syntax diagnostics only exist as replayed messages)")
+	n := 0
+	for _, fn := range p.ModuleFuncs() {
+		if pkgPathOf(fn) != modPath+"/internal/cache" || fn.Name() != "Parse" || fn.Signature.Recv() == nil || fn.Parent() != nil {
+			continue
+		}
+		isEntry := func(t types.Type) bool { return strings.HasSuffix(namedTypeName(t), "CacheEntry") }
+		msgBlocks := map[*ssa.BasicBlock]bool{}
+		eachInstr(fn, func(b *ssa.BasicBlock, in ssa.Instruction) {
+			if fa, ok := in.(*ssa.FieldAddr); ok && isEntry(fa.X.Type()) && fieldAddrName(fa) == "msgs" {
+				// a read (not the construction of a new entry)
+				if fa.Referrers() != nil {
+					for _, rf := range *fa.Referrers() {
+						if u, ok := rf.(*ssa.UnOp); ok && u.Op == token.MUL {
+							msgBlocks[b] = true
+							_ = u
+						}
+					}
+				}
+			}
+		})
+		var hitReturns []*ssa.BasicBlock
+		for _, b := range fn.Blocks {
+			if !isReturnBlock(b) {
+				continue
+			}
+			ret := b.Instrs[len(b.Instrs)-1].(*ssa.Return)
+			cached := false
+			for i := range ret.Results {
+				backSlice(returnedValue(ret, i), func(v ssa.Value) bool {
+					if fa, ok := v.(*ssa.FieldAddr); ok && isEntry(fa.X.Type()) && fieldAddrName(fa) != "msgs" {
+						// loaded from an entry that was itself loaded from the cache map (not the fresh one)
+						cached = true
+					}
+					return true
+				})
+			}
+			if cached {
+				hitReturns = append(hitReturns, b)
+			}
+		}
+		if len(hitReturns) == 0 {
+			continue
+		}
+		n++
+		for _, rb := range hitReturns {
+			r.Instances++
+			key := FuncName(fn) + " cache hit replays messages"
+			if len(msgBlocks) == 0 {
+				r.Fail(key, p.Pos(fn.Pos()), "the cached result is returned but the entry's stored messages are never read")
+				continue
+			}
+			target := rb
+			if path, reach := reachesExitAvoiding(fn.Blocks[0], func(x *ssa.BasicBlock) bool { return x == target }, func(x *ssa.BasicBlock) bool { return msgBlocks[x] }, false); reach {
+				r.Fail(key, p.Pos(rb.Instrs[len(rb.Instrs)-1].Pos()), "the cached AST can be returned on a path ("+blockPath(path)+") that does not replay the stored diagnostics: an unsupported-syntax error reported by the first build is silently dropped on every rebuild, which then succeeds and emits the syntax")
+			} else {
+				r.OK(key, true, "every path to the return of the cached entry reads entry.msgs (the replay loop)")
+			}
+		}
+	}
+	r.Anchor("Parse methods of internal/cache that return cached entries", n >= 3)
 	return r
 }
